@@ -3146,7 +3146,7 @@ class SEVM:
 
                 if max_depth and step_id > max_depth:
                     warn(
-                        f"{self.fun_info.sig}: incomplete execution due to the specified limit: --depth {max_depth}",
+                        f"{self.fun_info.contract_name}.{self.fun_info.sig}: incomplete execution due to the specified limit: --depth {max_depth}",
                         allow_duplicate=False,
                     )
                     continue
